@@ -240,3 +240,69 @@ for _fn, _mod, _what in (("init_gth_loc", "eminus.gth", "local GTH potential -Zi
         register(Obligation(name=f"C12.{_fn}.fourier_transform.{_cl}", prop=PROP, engine="A", functions=[f"{_mod}:{_fn}"], run=LocalFT(_fn, _cl),
                             assumes=("engineA", "reals", "gaussian-moments", "erf-coulomb"),
                             doc=f"{_fn}: the per-species form factor at {'G != 0' if _cl == 'finite_G' else 'G = 0 (finite part / zero for the all-electron potentials)'} equals the Fourier transform of the {_what}"))
+
+
+# ------------------------------------------------------------------------------------------------
+# init_pot: the dispatcher hands the user's potential parameters on unchanged
+# ------------------------------------------------------------------------------------------------
+
+
+class InitPotForwards:
+    """init_pot(scf, pot_params) returns IMPLEMENTED[scf.pot](scf, **pot_params): decided on the AST (the call passes scf positionally and the parameter
+    dictionary by ** without touching its values; nothing else is done to the result), and evaluated natively for non-integral parameters (freq = 0.5,
+    1.5; alpha = 2.5, 0.8) through SCF.pot_params against the direct call of the potential function."""
+
+    def __call__(self, ob, tier, seed):
+        import ast
+
+        from pycv.loader import source_of
+
+        fn = next(n for n in ast.walk(ast.parse(source_of("eminus.potentials"))) if isinstance(n, ast.FunctionDef) and n.name == "init_pot")
+        ok_shape = False
+        calls = [n for n in ast.walk(fn) if isinstance(n, ast.Call) and isinstance(n.func, ast.Subscript) and ast.unparse(n.func.value) == "IMPLEMENTED"]
+        names_assigned = {t.id for n in ast.walk(fn) if isinstance(n, ast.Assign) for t in n.targets if isinstance(t, ast.Name)}
+        if len(calls) == 1:
+            c = calls[0]
+            kws = [k for k in c.keywords if k.arg is None]
+            ok_shape = (ast.unparse(c.func.slice) == "scf.pot" and len(c.args) == 1 and ast.unparse(c.args[0]) == "scf" and len(kws) == 1 and len(c.keywords) == 1
+                        and ast.unparse(kws[0].value) == "pot_params")
+            # pot_params may only be re-bound to an empty dictionary (the None default); the result variable is returned as it is
+            for n in ast.walk(fn):
+                if isinstance(n, ast.Assign) and any(isinstance(t, ast.Name) and t.id == "pot_params" for t in n.targets) and ast.unparse(n.value) not in ("{}", "dict()"):
+                    ok_shape = False
+                if isinstance(n, (ast.AugAssign, ast.For, ast.While, ast.DictComp, ast.ListComp)):
+                    ok_shape = False
+        bad, info = self.native()
+        if bad:
+            return Result(REFUTED, backend="native", witness=info["failing"][0], replayed=True, replay_info=info, detail=f"init_pot does not hand the parameters on unchanged: {info['failing'][0]}")
+        if not ok_shape:
+            return Result(UNDECIDED, backend="ast", detail=f"init_pot is not in the recognised dispatcher form (assigned names: {sorted(names_assigned)}); the native evaluation passes")
+        return Result(DISCHARGED, backend="ast-frame + native evaluation", stats=info)
+
+    def native(self):
+        import eminus
+        from eminus import SCF, Atoms, potentials
+
+        eminus.config.backend = "numpy"
+        eminus.config.verbose = "critical"
+        bad = []
+        n = 0
+        for pot, fn, key, vals in (("harmonic", "harmonic", "freq", (0.5, 1.5, 2)), ("lr", "coulomb_lr", "alpha", (2.5, 0.8, 100))):
+            for v in vals:
+                n += 1
+                at = Atoms(["Li", "H"], [[0.1, 0.2, 0.3], [0.4, 0.2, 3.1]], ecut=3, a=[[6.0, 0.3, 0.1], [0.2, 6.5, 0.4], [0.5, 0.1, 7.0]])
+                scf = SCF(at, pot=pot, verbose="critical")
+                scf.pot_params = {key: v}
+                want = np.asarray(getattr(potentials, fn)(scf, **{key: v}))
+                got = np.asarray(scf.Vloc)
+                d = float(np.abs(got - want).max() / max(1e-30, np.abs(want).max()))
+                if d > 1e-12:
+                    bad.append(dict(pot=pot, parameter={key: v}, relative_deviation_of_Vloc_from_the_direct_call=d))
+        return bool(bad), dict(cases=n, failing=bad)
+
+    def replay(self, wit):
+        return self.native()
+
+
+register(Obligation(name="C12.init_pot.parameters_reach_the_potential", prop=PROP, engine="Z", functions=["eminus.potentials:init_pot", "eminus.scf:SCF.pot_params"], run=InitPotForwards(),
+                    doc="init_pot hands scf and the user's parameter dictionary on to the selected potential unchanged (dispatcher frame on the AST; native evaluation with non-integral parameters)"))
